@@ -541,6 +541,9 @@ def run(ctx):
     lists = [[], ['v0.1.0'], ['v0.14.0', 'v0.15.0-pre.1', 'v0.15.0'], ['v1.0.0-pre.1'], ['v0.0.0'], ['v0.2.0', 'v0.2.1-pre.1', 'v0.2.1-pre.2'],
              ['v1.2.2', 'v1.2.3-pre.2'], ['v2.2.2', 'v0.0.1'],
              # two-digit components: numeric, not lexical, order (v0.9.0 < v0.10.0; the padding of v0.0.9 is v0.0.10)
+             # real versions that are not in canonical form must come back as they are (exact string)
+             ['v1.9.0', 'v2.0.0+incompatible'], ['v2.0.0', 'v2.0.0+incompatible', 'v2.0.1-pre.1+incompatible'], ['v1.2', 'v1.2.1'], ['v1', 'v1.0.0'],
+             ['v0.15.0+build.7', 'v0.15.0-pre.1+exp.sha.5114f85'], ['v3'],
              ['v0.9.0', 'v0.10.0'], ['v0.0.9'], ['v1.9.9', 'v1.10.0-pre.1'], ['v9.9.9', 'v10.0.0-pre.2', 'v0.10.0']]
     real_pads = [(6, 1, 3, 6, 4), (8, 1, 4, 5, 0), (4, 1, 1, 4, 0), (2, 1, 1, 2, 2), (2, 1, 1, 2, 0), (2, 1, 2, 0, 0)]      # configgen's own tables
     for _ in range(ctx.pick(6, 40)):
